@@ -105,4 +105,15 @@ func init() {
 		return n
 	})
 	reg(vrt+"Finish", nop)
+	// Stub(name, fn): calls to the function named name (ssa String form) are
+	// redirected to the harness closure fn for the rest of the path.
+	reg(vrt+"Stub", func(fr *frame, a []value) value {
+		w := fr.w
+		if w.stubs == nil {
+			w.stubs = map[string]value{}
+		}
+		fn := a[1].(iface).v
+		w.stubs[a[0].(string)] = fn
+		return nil
+	})
 }
